@@ -18,17 +18,18 @@ pub fn archive_inputs(seed: u64, which: u64) -> (Params, SampleSet) {
     let mut p = gen::params(&mut rng, true);
     p.threads = 2;
     p.capacity = 1 << 30;
-    let shape = match which % 4 {
+    let shape = match which % 6 {
         0 => Shape { max_samples: 1, max_contigs: 1, max_contig_len: 40, iupac: false, allow_many_samples: false }, // tiny
         1 => Shape { max_samples: 6, max_contigs: 5, max_contig_len: 4000, iupac: true, allow_many_samples: false }, // splits
         2 => Shape { max_samples: 130, max_contigs: 2, max_contig_len: 200, iupac: false, allow_many_samples: true }, // 3 batches
-        _ => Shape { max_samples: 3, max_contigs: 2, max_contig_len: 60_000, iupac: false, allow_many_samples: false }, // large parts
+        3 => Shape { max_samples: 3, max_contigs: 2, max_contig_len: 60_000, iupac: false, allow_many_samples: false }, // large parts
+        _ => Shape { max_samples: 2, max_contigs: 2, max_contig_len: 300, iupac: false, allow_many_samples: false }, // replaced below (4, 5)
     };
-    if which % 4 == 3 {
+    if which % 6 == 3 {
         p.segment_size = 5000;
     }
     let mut set = gen::sample_set(&mut rng, &p, &shape);
-    if which % 4 == 2 {
+    if which % 6 == 2 {
         let base = set.samples.clone();
         let mut i = 0;
         while set.samples.len() < 105 {
@@ -53,9 +54,66 @@ pub fn archive_inputs(seed: u64, which: u64) -> (Params, SampleSet) {
         }
         set.pansn = true;
     }
-    if which % 4 == 0 {
+    if which % 6 == 0 {
         set.samples.truncate(1);
         set.samples[0].contigs.truncate(1);
+    }
+    if which % 6 == 4 {
+        // a data area several hundred times larger than the footer (few groups, incompressible
+        // sequence): cutting the last byte makes the footer length read as (F << 8) | x, which
+        // still fits in the file, so the directory parser runs on garbage
+        p.k = 31;
+        p.segment_size = 60_000;
+        set.samples.truncate(1);
+        set.samples[0].contigs = vec![(format!("{}#big", set.samples[0].name), gen::random_bases(&mut rng, 1_000_000))];
+        set.pansn = true;
+    }
+    if which % 6 == 5 {
+        // Raw-stored parts that end in a hand-made "footer": every symbol code 0..15 is a legal
+        // sequence byte, so a contig can spell <directory bytes> <their count> 00 00 00 00 00 00 00.
+        // A prefix cut right after the seven zero bytes passes the footer-length check and the
+        // directory parser runs on the hand-made bytes. The contigs are shorter than k (orphans,
+        // one per raw group, so every pack is tiny and stays uncompressed).
+        p.k = 32;
+        p.segment_size = 100;
+        let sn = "Z00#0".to_string();
+        let mut contigs = Vec::new();
+        for ci in 0..16 {
+            let mut foot: Vec<u8> = Vec::new();
+            // number of streams: length byte (sometimes 0, sometimes > 1) + value bytes
+            let ns_len = *rng.pick(&[1u8, 1, 1, 0, 2, 9, 15]);
+            foot.push(ns_len);
+            for _ in 0..ns_len.min(3) {
+                foot.push(rng.range(0, 4) as u8);
+            }
+            // then, cut off at a random point: name bytes, terminator, part count, raw size, parts
+            let body: Vec<u8> = {
+                let mut b = Vec::new();
+                for _ in 0..rng.usize(0, 4) {
+                    b.push(rng.range(1, 15) as u8); // name characters
+                }
+                if rng.chance(2, 3) {
+                    b.push(0); // name terminator
+                    b.push(1);
+                    b.push(rng.range(0, 15) as u8); // number of parts
+                    b.push(*rng.pick(&[0u8, 1, 8, 9, 15])); // raw size: length byte ...
+                    for _ in 0..rng.usize(0, 3) {
+                        b.push(rng.range(0, 15) as u8);
+                    }
+                }
+                b
+            };
+            let keep = rng.usize(0, body.len());
+            foot.extend_from_slice(&body[..keep]);
+            foot.truncate(15);
+            let mut d: Vec<u8> = (0..rng.usize(1, 31 - 8 - foot.len())).map(|_| rng.range(1, 15) as u8).collect();
+            let flen = foot.len() as u8;
+            d.extend_from_slice(&foot);
+            d.push(flen);
+            d.extend_from_slice(&[0u8; 7]);
+            contigs.push((format!("{}#c{}", sn, ci), d));
+        }
+        set = SampleSet { samples: vec![gen::Sample { name: sn, contigs }], pansn: true };
     }
     (p, set)
 }
@@ -140,6 +198,25 @@ pub fn child(args: &Args, rep: &mut Report) -> i32 {
     0
 }
 
+/// Build the archives once (called by the driver before the shards start)
+pub fn prep(args: &Args, rep: &mut Report) {
+    let dir = args.get("archives_dir").expect("archives_dir=").to_string();
+    std::fs::create_dir_all(&dir).unwrap();
+    let narch = args.get_u64("archives", if args.tier_thorough { 24 } else { 12 });
+    for which in 0..narch {
+        if !args.mine(which) {
+            continue;
+        }
+        let (p, set) = archive_inputs(args.seed, which);
+        let path = format!("{}/full{}.agc", dir, which);
+        rep.evaluations += 1;
+        match catch_unwind(AssertUnwindSafe(|| drive::create(&path, &set, &p))) {
+            Ok(Ok(())) => rep.count("archives_prepared", 1),
+            _ => rep.inconclusive(format!("archive {}: create did not succeed", which)),
+        }
+    }
+}
+
 pub fn run(args: &Args, rep: &mut Report) {
     let thorough = args.tier_thorough;
     let scratch = args.get("scratch").unwrap_or("/tmp").to_string();
@@ -147,23 +224,34 @@ pub fn run(args: &Args, rep: &mut Report) {
     let dir = format!("{}/tr-{}-{}", scratch, std::process::id(), args.shard);
     std::fs::create_dir_all(&dir).unwrap();
     let exe = std::env::current_exe().expect("current_exe");
-    let narch = args.get_u64("archives", if thorough { 8 } else { 4 });
+    let narch = args.get_u64("archives", if thorough { 24 } else { 12 });
     let mut all_exhaustive = true;
+    // the archives are built once by `vh c14prep` (optimised build) and shared by all shards of
+    // both build profiles; without archives_dir= every shard builds its own
+    let prebuilt = args.get("archives_dir").map(|s| s.to_string());
     for which in 0..narch {
         let (p, set) = archive_inputs(args.seed, which);
-        let path = format!("{}/full{}.agc", dir, which);
-        match catch_unwind(AssertUnwindSafe(|| drive::create(&path, &set, &p))) {
-            Ok(Ok(())) => {}
-            _ => {
-                rep.inconclusive(format!("archive {}: create did not succeed", which));
-                continue;
+        let path = match &prebuilt {
+            Some(d) => format!("{}/full{}.agc", d, which),
+            None => format!("{}/full{}.agc", dir, which),
+        };
+        if prebuilt.is_none() {
+            match catch_unwind(AssertUnwindSafe(|| drive::create(&path, &set, &p))) {
+                Ok(Ok(())) => {}
+                _ => {
+                    rep.inconclusive(format!("archive {}: create did not succeed", which));
+                    continue;
+                }
             }
+        } else if !std::path::Path::new(&path).exists() {
+            rep.inconclusive(format!("archive {}: the prepared archive {} is missing", which, path));
+            continue;
         }
         let full = std::fs::read(&path).unwrap();
         let len = full.len();
         // which prefix lengths?
         let mut offs: BTreeSet<usize> = BTreeSet::new();
-        let exhaustive = thorough && len <= 70_000 || len <= 6_000;
+        let exhaustive = thorough && len <= 70_000 || len <= 16_000;
         if exhaustive {
             offs.extend(0..len);
         } else {
@@ -320,7 +408,9 @@ pub fn run(args: &Args, rep: &mut Report) {
             ]));
         }
         rep.distinct_by_construction += mine.len() as u64;
-        let _ = std::fs::remove_file(&path);
+        if prebuilt.is_none() {
+            let _ = std::fs::remove_file(&path);
+        }
     }
     rep.exhaustive = Some(all_exhaustive);
     let _ = std::fs::remove_dir_all(&dir);
